@@ -46,6 +46,22 @@ META = {
         technique=PBT + "; oracle: idempotence (legalize . legalize == legalize) and stability of constructed legal placements",
         text="Row-high designs: a legal placement obtained from legalize or constructed by packing (touching cells likely) is legalized again, possibly with other accepted ordering parameters, and must not move. orderingWidth outside [0,1] is a recorded known finding, excluded by construction and counted.",
         note="Trusted: harness legality predicate for the constructed starts. Known finding c11-ordering-width-outside-0-1 excluded and counted."),
+    "C08": dict(
+        technique=PBT + " with harness-owned schedules through the COLOQUINTE_VERIF hook and a ThreadSanitizer build; oracle: bitwise equality of Circuit::solution() across repeated / copied / reordered / callback / forced-completion-order / single-CPU runs",
+        text="For every generated circuit and parameter set the reference result is compared bit for bit with a repeated run, a run on a copy, a run with an observing callback, a run after an unrelated placement in the same process, runs in which the hook forces the x solve or the y solve of every lower-bound step to finish first (or adds tape-chosen delays), and a run pinned to one CPU. The same property compiled with -fsanitize=thread runs those schedules under ThreadSanitizer; any report is a violation. The evidence counts the hooked solve pairs and how many honoured the requested order.",
+        note="Trusted: ThreadSanitizer on the executions actually produced; the hook (add-only, guarded) delays but never kills threads. Interleavings that need a pre-emption at one instruction inside Eigen's CG loop are out of reach, as DESIGN.md states."),
+    "C16": dict(
+        technique="stateful property-based testing (rapidcheck tape = construction + operation history, shrunk as one value); oracle: interval arithmetic on the harness's own free-region list, exactly-one-bin invariant, coordinates-in-bin",
+        text="A density legalizer is constructed on generated regions or through fromIspdCircuit, then driven by a generated history of up to 25 refine / coarsen / improve / run / retarget / setParams operations; after construction and after every operation all clauses of the property are re-checked against an independent computation of the free area inside every bin of the current view.",
+        note="Trusted: the harness's region list (free segments from the C15 oracle, clipped by floor(sideMargin*h_min)). Operations respect their documented level preconditions."),
+    "C17": dict(
+        technique=PBT + "; oracle: metamorphic scaling (bitwise for 2^k, tolerance for 2.5 and 7), differential against a dense double-precision solve with a per-case conditioning bound, duplicated-net relation through placeGlobal",
+        text="Net lists with fractional weights are solved by solveStar / solve / solveWithPenalty under all four net models; scaling all weights and strengths by 2^k must leave the result bit-identical, non-dyadic factors within 1e-3 of the range; for the initial star model and for 2-pin nets the result must match the weighted least-squares optimum of the documented quadratic form computed densely in double, within a bound derived from the solver tolerance and the condition number (ill-conditioned or singular cases are counted and skipped). Through Circuit::placeGlobal the first lower bound must be invariant under a common 2^k factor and a net of weight m*u must act like m nets of weight u.",
+        note="Trusted: Eigen dense LDLT and eigenvalues in double as reference. Exact ties of the two pins of a bound-to-bound net are not judged (see DESIGN.md)."),
+    "C18": dict(
+        technique=PBT + "; oracle: frame snapshot, monotone widths, area inequalities against the harness's own free-segment areas, reference max-over-regions for the congestion factors",
+        text="expandCellsToDensity, expandCellsByFactor and computeCellExpansion on generated circuits (mixed heights, fixed cells, zero-size cells, obstructed rows) with generated targets, margins, caps, factors and overlapping congestion maps; every clause of the property is an inequality or equality checked against areas computed from the C15 free-space oracle.",
+        note="Trusted: slack terms derived in DESIGN.md (one truncated unit per cell, 1e-5 relative for float accumulation)."),
     "C09": dict(
         technique="property-based testing (rapidcheck tapes, libFuzzer in the thorough tier) + exhaustive orientation x offset table; oracle: 2x2-matrix reference geometry and from-scratch one-axis HPWL",
         text="Generated circuits with all eight orientations, pins inside/on/outside the outline, repeated cells, empty and single-pin nets; hpwl(), the placed-size and pin-offset getters and both incremental topologies (all cells / arbitrary ordered subsets, histories of up to 40 updates) are compared with an independent reference after every step. The single-cell orientation x offset table is enumerated completely. A sample outside that table.",
